@@ -44,6 +44,8 @@ type LedgerOpts struct {
 	// asset (priced by the first genesis asset's price token) and governance adds it to the dogfood AVS's assets: native
 	// delegations then carry voting power and are slashed like any other asset. Used by the liveness families only.
 	NativeStaking bool
+	// ChainID: another chain id than the default "exocore_233-1" (later revisions of the main network's id)
+	ChainID string
 }
 
 func DefaultLedgerOpts() LedgerOpts {
@@ -68,6 +70,13 @@ func BuildLedgerWorld(seed int64, idx int, o LedgerOpts) (*World, error) {
 		stakes[0] = o.MinSelf + 10 + int64(r.Intn(100)) // the protected validator stays eligible
 	}
 	cfg := sim.DefaultConfig(o.NOps, stakes)
+	if o.ChainID != "" {
+		cfg.ChainID = o.ChainID
+	}
+	if o.Profile == "power" && idx%2 == 0 {
+		// a fourth staking asset without decimals (legal: only an upper bound is enforced), priced 7
+		cfg.Assets = append(cfg.Assets, sim.AssetCfg{Address: "0x00000000000000000000000000000000000000d0", LzChainID: 101, Decimals: 0, HasOracle: true, Price: "7", PriceDec: 0, FeederStart: 10000000, Interval: 10})
+	}
 	if o.OracleStart > 0 {
 		for i := range cfg.Assets {
 			cfg.Assets[i].FeederStart = o.OracleStart
